@@ -307,6 +307,14 @@ def c02_catalogue(quick):
     out.append(scenario('offer-N2', offer, dict(pagereq=1), N=2))
     out.append(scenario('offer-span', offer, dict(spanhosts=1, pagereq=1), N=1))
     out.append(scenario('offer-norecursion', offer, dict(recursive=0, pagereq=1), N=1))
+    # robots.txt checking on: the control file of an origin that is only ever the target of a REFUSED redirect (or of
+    # refused links) is not "an origin being visited"
+    rb = {'a.test': {'kind': 'rules'}, 'b.test': {'kind': 'rules'}}
+    refused = [U(1, links=[2, 4, 5]), U(2, kind='redirect', rto=3), U(3, host='b.test'), U(4), U(5, host='b.test')]
+    out.append(scenario('robots-refused-redirect-nostrong', refused, dict(robots=1, strong=0), N=1, robots=rb))
+    rej = [U(1, links=[2, 4]), U(2, kind='redirect', rto=3), U(3, host='b.test', rejected=1), U(4)]
+    out.append(scenario('robots-refused-redirect-rejected', rej, dict(robots=1, strong=1), N=1, robots=rb))
+    out.append(scenario('robots-offer', offer, dict(robots=1, strong=1, pagereq=1), N=1, robots=rb))
     return out
 
 
